@@ -113,9 +113,9 @@ def parseEvs (s : String) : Option (List Ev) :=
 def parseXEvs (s : String) : Option (List XEv) :=
   if s == "-" then some [] else allSome ((s.splitOn ",").map XEv.ofTok?)
 
-/-- `chunks := hex ("," hex)* | "-"`; an empty chunk is the empty string between commas -/
+/-- `chunks := chunk ("," chunk)* | "-"`; chunk = hex | "_" (the empty chunk) -/
 def parseChunks (s : String) : Option (List Bytes) :=
-  if s == "-" then some [] else allSome ((s.splitOn ",").map ofHex)
+  if s == "-" then some [] else allSome ((s.splitOn ",").map fun c => if c == "_" then some [] else ofHex c)
 
 def parseNats (s : String) : Option (List Nat) :=
   if s == "-" then some [] else allSome ((s.splitOn ",").map decToNat?)
